@@ -1,7 +1,7 @@
 SPECIFICATION Spec
 CONSTANTS
   MaxChains = 3
-  Expiries = {1, 2, 3, 4}
+  Expiries = {2, 3, 4}
   KeyRings = {{1, 2}, {1}}
 INVARIANTS Sound Emit
 CHECK_DEADLOCK FALSE
